@@ -298,6 +298,8 @@ SPECS = {
            'where int(<len>) == len(str(<body>))\nwhere str(<body>).count("a") == 3\n',
     "slice": '<start> ::= <r>{3,6}\n<r> ::= <k> <k> <k>\n<k> ::= "p"|"q"|"r"\n'
              'where str(<start>.<r>[0:2]) != str(<start>.<r>[1:3])\nwhere str(<start>).count("q") == 4\n',
+    "rep": f'<start> ::= <len> ":" <item>{{int(<len>)}} "."\n<len> ::= <d>\n<d> ::= "1"|"2"|"3"|"4"|"5"\n'
+           '<item> ::= <k> <k>?\n<k> ::= "x"|"y"\nwhere str(<start>).count("y") >= 2\n',
     "bits": '<start> ::= <hdr> <pl>\n<hdr> ::= <bit>{8}\n<bit> ::= 0 | 1\n<pl> ::= <byte>{1,4}\n<byte> ::= b"\\x00" | b"\\x7f" | b"A"\n'
             'where bytes(<hdr>)[0] % 3 == len(bytes(<pl>)) % 3\nwhere bytes(<hdr>)[0] > 40\n',
 }
@@ -373,6 +375,29 @@ def search_run(run: Run, name: str, seed: int, pop: int, gens: int, want: int) -
         op_failures.extend(m for _, m in bookkeeping_violations([res]))
         return res
 
+    from fandango.evolution import population as PM
+    orig_fix = PM.PopulationManager.fix_individual
+    counts["repair"] = 0
+
+    def fix(self, individual, suggestion=None):
+        members = [individual] + population() + [t for t, _ in held]
+        fz = [(m, tree_frozen(m)) for m in members]
+        res, n = orig_fix(self, individual, suggestion)
+        if n:
+            counts["repair"] += 1
+        for m, z in fz:
+            d = frozen_diff(m, z)
+            if d:
+                op_failures.append(f"repair (fix_individual, {n} replacement(s)) changed its input / a population "
+                                   f"member / an emitted solution: {d[:2]}")
+        if res is not individual:
+            old = {id(x) for m in members for x in m.flatten()}
+            if any(id(x) in old for x in res.flatten()):
+                op_failures.append("repair returned a tree sharing nodes with its input")
+            op_failures.extend(m for _, m in bookkeeping_violations([res]))
+        return res, n
+
+    PM.PopulationManager.fix_individual = fix
     CX.SimpleSubtreeCrossover.crossover = cx
     MU.SimpleMutation.mutate = mu
     try:
@@ -399,6 +424,7 @@ def search_run(run: Run, name: str, seed: int, pop: int, gens: int, want: int) -
     finally:
         CX.SimpleSubtreeCrossover.crossover = orig_cx
         MU.SimpleMutation.mutate = orig_mu
+        PM.PopulationManager.fix_individual = orig_fix
     rp = {"kind": "search", "spec": name, "seed": seed, "pop": pop, "gens": gens, "want": want}
     for i, (sol, fz) in enumerate(held):
         d = frozen_diff(sol, fz)
@@ -410,6 +436,7 @@ def search_run(run: Run, name: str, seed: int, pop: int, gens: int, want: int) -
     run.count("search:solutions-held", len(held))
     run.count("search:crossovers-observed", counts["crossover"])
     run.count("search:mutations-observed", counts["mutation"])
+    run.count("search:repairs-observed(with replacements)", counts["repair"])
     run.case({"search": name, "seed": seed}, counts["crossover"] + counts["mutation"] > 0,
              {"search": name, "solutions": len(held), **counts})
 
@@ -551,7 +578,8 @@ def main(tier: str) -> int:
 
     # search runs
     srng = run.rng("search")
-    plans = [("mod", 10, 8, 14), ("items", 10, 8, 14), ("len", 8, 6, 10), ("slice", 10, 8, 12), ("bits", 8, 6, 10)]
+    plans = [("mod", 10, 8, 14), ("items", 10, 8, 14), ("len", 8, 6, 10), ("slice", 10, 8, 12), ("bits", 8, 6, 10),
+             ("rep", 10, 8, 12)]
     reps = 1 if tier == "quick" else 6
     for _ in range(reps):
         for name, pop, gens, want in plans:
